@@ -9,9 +9,40 @@ inductive Stage where
   | filter | dynFormat | excFormat | formatMap | serialize | put | write | flush | stop | coroBody | get
   deriving DecidableEq, Repr, Inhabited
 
+/-- the sink classes of `logger.add` (`_simple_sinks.py`, `_file_sink.py`); a stream with a callable `flush` is
+    a kind of its own -/
+inductive SinkKind where
+  | callable | stream | streamFlush | file | coroutine | standard
+  deriving DecidableEq, Repr, Inhabited
+
 /-- what an `except` arm of the enqueue worker does after reporting -/
 inductive Arm where
   | continue_ | break_ | raise_
+  deriving DecidableEq, Repr
+
+/-- the four pieces of one error report `ErrorInterceptor.print` writes to `sys.stderr`, one `write` call each
+    (the traceback is `traceback.print_exception(..., sys.stderr)`: its text is outside the model, its first
+    `write` is what can fail) -/
+inductive Chunk where
+  | header | record | traceback | footer
+  deriving DecidableEq, Repr, Inhabited
+
+/-- one statement of the `try` body of `ErrorInterceptor.print`, as read from the AST -/
+inductive PStep where
+  /-- a `write` of that chunk to stderr -/
+  | write (c : Chunk)
+  /-- `record_repr = str(record)`; `guarded` = inside its own `try/except Exception` with a placeholder -/
+  | render (guarded : Bool)
+  deriving DecidableEq, Repr
+
+/-- what the `stop()` method of a sink class does, as read from the AST -/
+inductive StopAct where
+  /-- the sink's `stop()` never runs user code (`pass`, or cancels its own tasks) -/
+  | noUserCode
+  /-- runs the user object's `stop()` only if it has one (`StreamSink._stoppable`) -/
+  | userIfCapable
+  /-- always runs user code (`logging.Handler.close`, file sink: compression / retention callables) -/
+  | userAlways
   deriving DecidableEq, Repr
 
 end Emit
